@@ -50,6 +50,11 @@ def gen_file(rng, small=False):
         data = relink(rng, data, meta)
     if rng.random() < 0.12:
         data = odd_shstrtab(rng, data, meta)
+    if rng.random() < 0.12:          # relocation sections whose sh_entsize is not the structure size: the typed views ignore it alike
+        o_ = fileq.py_open("any", data)
+        for k, h in enumerate((fileq.py_shdrs(o_, data) if o_ else None) or []):
+            if h and h["sh_type"] in (4, 9):
+                data = elfgen.patch(data, meta, "shdr", "sh_entsize", rng.choice([0, 1, 8, 12, 16, 24, 25]), k)
     if rng.random() < 0.35:
         data = filegen.corrupt(rng, data, meta)
     return data, meta, info
